@@ -582,6 +582,9 @@ class ByteVec:
         # aligned write, just overwrite the existing chunk
         # length is unchanged, so we can return early
         if start == first_chunk.start and stop == first_chunk.end:
+            # a ByteVec value is mutable: store a copy so that later writes to it are not visible here
+            if isinstance(value, ByteVec):
+                value = value.copy()
             self.__set_chunk(first_chunk.start, value)
             return
 
